@@ -20,8 +20,8 @@ import (
 	"crypto/x509"
 	"encoding/binary"
 	"encoding/json"
+	"errors"
 	"fmt"
-	"io"
 	"net"
 	"sync"
 	"sync/atomic"
@@ -332,19 +332,21 @@ func (ep *ExportingProcess) closeConnToCollector() {
 }
 
 // checkConnToCollector checks whether the connection from exporter is still open
-// by trying to read from connection. Closed connection will return EOF from read.
+// by trying to read from connection. Closed connection will return EOF from read, or
+// another error that is not the expiry of the read deadline.
 func (ep *ExportingProcess) checkConnToCollector(readBuffer []byte) bool {
 	ep.connToCollector.SetReadDeadline(time.Now().Add(time.Millisecond))
 	for {
 		_, err := ep.connToCollector.Read(readBuffer)
-		if err == io.EOF {
-			return false
+		if err == nil {
+			// The collector is not expected to send anything. Whatever it sent is discarded:
+			// keep reading, the end of the stream may be right behind it.
+			continue
 		}
-		if err != nil {
-			return true
-		}
-		// The collector is not expected to send anything. Whatever it sent is discarded:
-		// keep reading, the end of the stream may be right behind it.
+		// Only the expiry of the read deadline means that the connection is still open. Every
+		// other error is final: the end of the stream, a reset, a TLS alert from the collector.
+		var netErr net.Error
+		return errors.As(err, &netErr) && netErr.Timeout()
 	}
 }
 
